@@ -506,9 +506,10 @@ func (we *wireEnum) c16Infra() {
 		f := newWireFixture()
 		out := &remote.VerifPipe{}
 		wpid := remote.VerifInstallWriter(f.e, peer, out)
+		dpid := remote.VerifInstallDialingWriter(f.e, "10.0.0.8:4000") // a writer whose first dial is still being retried: no stream yet
 		vsched.Quiesce()
-		targets := []*actor.PID{wpid, actor.NewPID(wireAddr, "stream/"+peer), actor.NewPID(wireAddr, wireTargetIDs[0]), actor.NewPID(wireAddr, "nobody/1")}
-		names := []string{"writer", "writer(by name)", "app", "unregistered"}
+		targets := []*actor.PID{wpid, actor.NewPID(wireAddr, "stream/"+peer), actor.NewPID(wireAddr, wireTargetIDs[0]), actor.NewPID(wireAddr, "nobody/1"), dpid}
+		names := []string{"writer", "writer(by name)", "app", "unregistered", "writer-still-dialling"}
 		type im struct{ t, s, d int }
 		var one []im
 		for t := range targets {
@@ -957,7 +958,7 @@ func init() {
 			}
 		})})
 	Register(&Job{Name: "C16/envelopes/infrastructure-targets", Prop: "C16", Kind: "direct", Family: "regression:D27 (fixed)", Budget: 50, BudgetT: 300,
-		Desc: "envelopes of 1-2 valid messages (valid/empty payload, sender valid / the writer itself / out of range) addressed to the node's own stream writer for the sending peer (registered as stream/<peer>, real streamWriter behind its real inbox), to an application actor and to an unregistered id: no panic in the reader or on the writer's goroutine, the application actor gets what names it, nothing inbound is written out again, the writer still works afterwards",
+		Desc: "envelopes of 1-2 valid messages (valid/empty payload, sender valid / the writer itself / out of range) addressed to the node's own stream writer for the sending peer (registered as stream/<peer>, real streamWriter behind its real inbox), to a stream writer whose first dial is still being retried (registered, inbox open, no connection yet), to an application actor and to an unregistered id: no panic in the reader or on the writer's goroutine, the application actor gets what names it, nothing inbound is written out again, the writer still works afterwards",
 		Run: wireRun(func(we *wireEnum, tier string) { we.c16Infra() })})
 	Register(&Job{Name: "C16/envelopes/values-with-nil-entries", Prop: "C16", Kind: "direct", Budget: 50, BudgetT: 300,
 		Desc: "Envelope values that no byte string decodes to: nil entries in the target table, the sender table and the message list (4 x 5 x 22 tables, with and without type names), handed to streamReader.Receive directly: no panic, deliveries only as named by valid indices, node usable afterwards",
